@@ -33,7 +33,11 @@ CONFIG = {
                    'fresh interpreters with different hash seeds and under 6 '
                    'presentation transformations; all answers must '
                    'correspond. Evidence counts the distinct internal '
-                   'schedules (atom-list and SCC emission orders) seen.'),
+                   'schedules (atom-list and SCC emission orders) seen.'
+                   ' Also: a bulk stream of cheap CTL cases on 5-8 state'
+                   ' structures, a deterministic block of'
+                   ' next-time-over-negative/temporal formulas, very long atom'
+                   ' names sharing a stem, equal-but-distinct state objects.'),
     'level_note': ('Trusted base: the transformations and their inverses in '
                    'vmon/props/c06.py. A finite sample of seeds/orderings; '
                    'a run in which the seeds did not change any internal '
